@@ -56,6 +56,22 @@ def const_value(e):
     return None
 
 
+def cfg_writes_in(stmts, depth=0, out=None):
+    """(config object, field) pairs that the statements may write, directly or in callees"""
+    out = [] if out is None else out
+    for st in stmts:
+        if isinstance(st, LoopIR.WriteConfig):
+            if not any(c is st.config and f == st.field for c, f in out):
+                out.append((st.config, st.field))
+        elif isinstance(st, LoopIR.Call) and depth < 6:
+            cfg_writes_in(st.f.body, depth + 1, out)
+        for attr in ("body", "orelse"):
+            sub = getattr(st, attr, None)
+            if sub:
+                cfg_writes_in(sub, depth, out)
+    return out
+
+
 class Unsupported(Exception):
     """construct outside the encoded subset -> instance inconclusive"""
 
@@ -245,6 +261,7 @@ class Bounds:
     unroll_cap: int = 12
     stmt_budget: int = 1500
     win_stride_max: int = 0  # 0: window args get symbolic strides >= 1 w/o upper bound
+    unbounded: bool = False  # sizes / index arguments unbounded (only sizes >= 1); loops are summarised, not unrolled
 
 
 class Inputs:
@@ -275,9 +292,9 @@ class Inputs:
                 else:
                     v = z3.Int(nm)
                     if isinstance(t, T.Size):
-                        self.assumptions += [v >= 1, v <= bounds.size_max]
+                        self.assumptions += [v >= 1] if bounds.unbounded else [v >= 1, v <= bounds.size_max]
                     else:
-                        self.assumptions += [v >= bounds.idx_min, v <= bounds.idx_max]
+                        self.assumptions += [] if bounds.unbounded else [v >= bounds.idx_min, v <= bounds.idx_max]
                 self.vars.append((nm, v))
                 self.ctrl.append(v)
                 self.stores.append(None)
@@ -319,7 +336,7 @@ class Inputs:
                 v = z3.Int(nm)
                 # keep the initial configuration inside a finite box so that
                 # loops bounded by config values can be unrolled
-                self.assumptions += [v >= self.bounds.idx_min, v <= self.bounds.idx_max]
+                self.assumptions += [] if self.bounds.unbounded else [v >= self.bounds.idx_min, v <= self.bounds.idx_max]
             else:
                 v = z3.Real(nm)
             self.cfg0[key] = v
@@ -705,6 +722,26 @@ class SymExec:
         hi = z3.simplify(self.ctrl(s.hi, env))
         where = f"for {s.iter} @{s.srcinfo}"
         self.obl("loop_range", g, lo <= hi, where)
+        if self.bounds.unbounded:
+            # one ARBITRARY iteration from an arbitrary loop state: the iterator is a fresh integer in [lo, hi),
+            # every configuration field the body may write (directly or in a callee) is havoc'd before the body
+            # and again after the loop.  Data never influences control, so this over-approximates every
+            # reachable control state: unsat => the obligation holds for loops of ANY length.
+            uid = next(self._loop_uid)
+            it = z3.Int(f"{self.run_tag}it{uid}_{s.iter.name()}")
+            gk = _And(g, lo <= it, it < hi)
+            keys = cfg_writes_in(s.body)
+            self._havoc_cfg(keys, uid, "a")
+            e2 = Env(env)
+            e2[s.iter] = it
+            self.nloops += 1
+            saved = self.par_ctx
+            if isinstance(s.loop_mode, LoopIR.Par):
+                self.par_ctx = saved + ((uid, 0, str(s.iter)),)
+            self.block(s.body, e2, gk)
+            self.par_ctx = saved
+            self._havoc_cfg(keys, uid, "b")
+            return
         U = self.max_trip(g, hi - lo)
         self.nloops += 1
         self.max_unroll = max(self.max_unroll, U)
@@ -725,6 +762,20 @@ class SymExec:
         # unwinding obligation: discharged by construction of U (max under the
         # assumptions); recorded so that a too-small cap is never silent
         self.obl("unwind", g, hi - lo <= U, where)
+
+    def _havoc_cfg(self, keys, uid, tag):
+        for cfgobj, fld in keys:
+            key = (cfgobj.name(), fld)
+            t = cfgobj.lookup_type(fld)
+            nm = f"{self.run_tag}hv{uid}{tag}_{key[0]}_{fld}"
+            if isinstance(t, T.Bool):
+                v = z3.Bool(nm)
+            elif is_ctrl_type(t):
+                v = z3.Int(nm)
+            else:
+                v = z3.Real(nm)
+            self.cfg[key] = v
+            self.cfg_written.add(key)
 
     def call(self, s, env, g):
         f = s.f
